@@ -1,3 +1,976 @@
 package c03lib
 
-func mainC04(reg Registry) {}
+import (
+	"encoding/hex"
+	"fmt"
+	"os"
+	"reflect"
+	"sort"
+	"strings"
+	"time"
+
+	"github.com/TarsCloud/TarsGo/tars/protocol/codec"
+	"verif/common"
+	"verif/ref"
+)
+
+// C04: schema evolution.
+//
+//	(i)   insert: well-formed fields with tags outside the schema, at every
+//	      position tag order allows (top level and inside nested structs)
+//	(ii)  delete: each member's field removed from a valid encoding
+//	(iii) reuse:  decode A then B into the same struct value
+
+type c04 struct {
+	thorough bool
+}
+
+const (
+	blockTag    = 2
+	sentinelTag = 9
+	sentinelStr = "SENT"
+)
+
+// ---------------------------------------------------------------- baselines
+
+type baseline struct {
+	label  string
+	v      *ref.Value
+	b      []byte
+	fields []*ref.Node // strict parse of b (with spans)
+}
+
+// mixedValue: members alternately away from / at their defaults, so that some
+// optional members are present and others absent in one encoding.
+func mixedValue(def *ref.StructDef, odd bool) *ref.Value {
+	b0, b1 := ref.Baselines(def)
+	v := b0.Clone()
+	for i := range def.Members {
+		if (i%2 == 1) == odd {
+			v.Elems[i] = b1.Elems[i].Clone()
+		}
+	}
+	return v
+}
+
+// baselinesOf: the baseline values of a struct in three encodings each
+// (reference canonical, reference with explicit defaults, the
+// implementation's own WriteTo), deduplicated by bytes.
+func baselinesOf(s *Subject, st *stats) []*baseline {
+	b0, b1 := ref.Baselines(s.Def)
+	type nv struct {
+		n string
+		v *ref.Value
+	}
+	vals := []nv{{"all-default", b0}, {"all-non-default", b1}}
+	if len(s.Def.Members) >= 2 {
+		vals = append(vals, nv{"mixed-even", mixedValue(s.Def, false)}, nv{"mixed-odd", mixedValue(s.Def, true)})
+	}
+	seen := map[string]bool{}
+	var out []*baseline
+	add := func(label string, v *ref.Value, b []byte) {
+		if seen[string(b)] {
+			return
+		}
+		seen[string(b)] = true
+		fields, err := ref.Parse(b)
+		if err != nil {
+			// the implementation's own encoding is not well-formed: C03's finding
+			st.n["baselines_dropped_malformed"]++
+			return
+		}
+		out = append(out, &baseline{label: label, v: v, b: b, fields: fields})
+	}
+	for _, x := range vals {
+		for _, o := range []struct {
+			n string
+			o ref.EncodeOptions
+		}{{"canonical", ref.EncodeOptions{}}, {"explicit-defaults", ref.EncodeOptions{KeepDefaults: true}}} {
+			b, err := ref.EncodeWith(s.Def, x.v, o.o)
+			if err != nil {
+				st.infraf("%s: reference encoder: %v", s.Name, err)
+				continue
+			}
+			add(x.n+"/"+o.n, x.v, b)
+		}
+		if g, err := newFrom(s, x.v); err == nil {
+			if b, werr, pan := implWriteTo(g); werr == nil && pan == "" {
+				add(x.n+"/WriteTo", x.v, append([]byte{}, b...))
+			}
+		}
+	}
+	return out
+}
+
+// ---------------------------------------------------------------- well-formed field alphabet
+
+type shape struct {
+	name string
+	wire ref.WireType
+	mk   func(tag uint8) *ref.Node
+	pair bool // member of the reduced alphabet used for pairs of insertions
+}
+
+func listN(n int, el func(i int) *ref.Node) func(uint8) *ref.Node {
+	return func(tag uint8) *ref.Node {
+		k := make([]*ref.Node, n)
+		for i := range k {
+			k[i] = el(i)
+		}
+		return ref.NList(tag, k...)
+	}
+}
+
+func lenAs(n *ref.Node, l int, w ref.WireType) *ref.Node {
+	n.Len = ref.NIntAs(0, int64(l), w)
+	return n
+}
+
+// the field alphabet: ref.WellFormedAlternatives plus deeper nesting, lengths
+// {0,1,255,256}, STRING4, doubles, extended tags inside skipped structs, and
+// payloads made of bytes that look like heads (0x0b = StructEnd).
+func alphabet() []shape {
+	var out []shape
+	names := []string{"BYTE", "SHORT", "INT", "LONG", "FLOAT", "DOUBLE", "STRING1-empty", "STRING1-ab", "STRING4-empty", "STRING4-ab",
+		"MAP-empty", "MAP-str-str", "MAP-int-int", "LIST-empty", "LIST-int", "LIST-str", "STRUCT-empty", "STRUCT-int-str", "ZeroTag", "SimpleList-empty", "SimpleList-2"}
+	pairSet := map[string]bool{"BYTE": true, "SHORT": true, "INT": true, "LONG": true, "FLOAT": true, "DOUBLE": true, "STRING1-ab": true, "STRING4-ab": true,
+		"MAP-str-str": true, "LIST-str": true, "STRUCT-int-str": true, "ZeroTag": true, "SimpleList-2": true}
+	for i, n := range ref.WellFormedAlternatives(0) {
+		i := i
+		out = append(out, shape{name: names[i], wire: n.Type, pair: pairSet[names[i]], mk: func(tag uint8) *ref.Node { return ref.WellFormedAlternatives(tag)[i] }})
+	}
+	add := func(name string, w ref.WireType, mk func(tag uint8) *ref.Node) {
+		out = append(out, shape{name: name, wire: w, mk: mk})
+	}
+	fill := func(n int, c byte) []byte {
+		b := make([]byte, n)
+		for i := range b {
+			b[i] = c
+		}
+		return b
+	}
+	add("BYTE-0b", ref.WByte, func(t uint8) *ref.Node { return ref.NIntAs(t, 0x0b, ref.WByte) })
+	add("SHORT-0b0b", ref.WShort, func(t uint8) *ref.Node { return ref.NIntAs(t, 0x0b0b, ref.WShort) })
+	add("INT-neg", ref.WInt, func(t uint8) *ref.Node { return ref.NIntAs(t, -2, ref.WInt) })
+	add("LONG-0b", ref.WLong, func(t uint8) *ref.Node { return ref.NIntAs(t, 0x0b0b0b0b0b0b0b0b, ref.WLong) })
+	add("FLOAT-nan", ref.WFloat, func(t uint8) *ref.Node { return ref.NFloat(t, 0x7fc00b0b) })
+	add("DOUBLE-0b", ref.WDouble, func(t uint8) *ref.Node { return ref.NDouble(t, 0x0b0b0b0b0b0b0b0b) })
+	add("STRING1-0b", ref.WString1, func(t uint8) *ref.Node { return ref.NStrAs(t, []byte{0x0b, 0x0b, 0x0b}, ref.WString1) })
+	add("STRING1-255", ref.WString1, func(t uint8) *ref.Node { return ref.NStrAs(t, fill(255, 0x0b), ref.WString1) })
+	add("STRING4-1", ref.WString4, func(t uint8) *ref.Node { return ref.NStrAs(t, []byte{0x0b}, ref.WString4) })
+	add("STRING4-255", ref.WString4, func(t uint8) *ref.Node { return ref.NStrAs(t, fill(255, 'x'), ref.WString4) })
+	add("STRING4-256", ref.WString4, func(t uint8) *ref.Node { return ref.NStrAs(t, fill(256, 0x0b), ref.WString4) })
+	add("SimpleList-1-0b", ref.WSimpleList, func(t uint8) *ref.Node { return ref.NBytes(t, []byte{0x0b}) })
+	add("SimpleList-255", ref.WSimpleList, func(t uint8) *ref.Node { return ref.NBytes(t, fill(255, 0x0b)) })
+	add("SimpleList-256", ref.WSimpleList, func(t uint8) *ref.Node { return ref.NBytes(t, fill(256, 0xfb)) })
+	add("SimpleList-len-as-INT", ref.WSimpleList, func(t uint8) *ref.Node { return lenAs(ref.NBytes(t, []byte{1, 2, 3}), 3, ref.WInt) })
+	add("LIST-255-int", ref.WList, listN(255, func(i int) *ref.Node { return ref.NInt(0, int64(i-100)) }))
+	add("LIST-256-str", ref.WList, listN(256, func(i int) *ref.Node { return ref.NStr(0, []byte{byte(i)}) }))
+	add("LIST-of-struct", ref.WList, listN(2, func(i int) *ref.Node {
+		return ref.NStruct(0, ref.NInt(0, int64(i)), ref.NStr(3, []byte("s")), ref.NInt(200, 7))
+	}))
+	add("LIST-of-list", ref.WList, listN(2, func(i int) *ref.Node { return ref.NList(0, ref.NInt(0, 1), ref.NInt(0, 300)) }))
+	add("LIST-of-map", ref.WList, listN(1, func(i int) *ref.Node { return ref.NMap(0, ref.NInt(0, 1), ref.NStr(1, []byte("v"))) }))
+	add("LIST-of-bytes", ref.WList, listN(2, func(i int) *ref.Node { return ref.NBytes(0, []byte{0x0b, 0x0a}) }))
+	add("LIST-of-double", ref.WList, listN(2, func(i int) *ref.Node { return ref.NDouble(0, 0x3ff0000000000000) }))
+	add("LIST-len-as-SHORT", ref.WList, func(t uint8) *ref.Node { return lenAs(ref.NList(t, ref.NInt(0, 5)), 1, ref.WShort) })
+	add("MAP-2-str-str", ref.WMap, func(t uint8) *ref.Node {
+		return ref.NMap(t, ref.NStr(0, []byte("a")), ref.NStr(1, []byte("1")), ref.NStr(0, []byte("b")), ref.NStr(1, []byte("2")))
+	})
+	add("MAP-of-list", ref.WMap, func(t uint8) *ref.Node {
+		return ref.NMap(t, ref.NStr(0, []byte("k")), ref.NList(1, ref.NInt(0, 1), ref.NInt(0, 2)), ref.NStr(0, []byte("l")), ref.NList(1))
+	})
+	add("MAP-of-struct", ref.WMap, func(t uint8) *ref.Node {
+		return ref.NMap(t, ref.NInt(0, 1), ref.NStruct(1, ref.NInt(0, 1), ref.NStr(1, []byte("s"))), ref.NInt(0, 2), ref.NStruct(1))
+	})
+	add("MAP-of-map", ref.WMap, func(t uint8) *ref.Node {
+		return ref.NMap(t, ref.NStr(0, []byte("o")), ref.NMap(1, ref.NStr(0, []byte("i")), ref.NBytes(1, []byte{9, 8})))
+	})
+	add("MAP-struct-key", ref.WMap, func(t uint8) *ref.Node {
+		return ref.NMap(t, ref.NStruct(0, ref.NInt(0, 4)), ref.NDouble(1, 0x4000000000000000))
+	})
+	add("MAP-255", ref.WMap, func(t uint8) *ref.Node {
+		var kv []*ref.Node
+		for i := 0; i < 255; i++ {
+			kv = append(kv, ref.NInt(0, int64(i)), ref.NInt(1, int64(i*300)))
+		}
+		return ref.NMap(t, kv...)
+	})
+	add("STRUCT-nested-3", ref.WStructBegin, func(t uint8) *ref.Node {
+		return ref.NStruct(t, ref.NInt(0, 1),
+			ref.NStruct(1, ref.NStr(0, []byte("in")), ref.NStruct(2, ref.NList(0, ref.NStruct(0, ref.NInt(5, 5))), ref.NMap(1, ref.NInt(0, 1), ref.NList(1, ref.NInt(0, 2))))),
+			ref.NBytes(2, []byte{0x0b, 0x0b}))
+	})
+	add("STRUCT-exttags", ref.WStructBegin, func(t uint8) *ref.Node {
+		return ref.NStruct(t, ref.NInt(14, 1), ref.NStr(15, []byte("x")), ref.NZero(16), ref.NDouble(200, 0x0b0b0b0b0b0b0b0b), ref.NStruct(255, ref.NInt(255, 0x0b)))
+	})
+	add("STRUCT-all-types", ref.WStructBegin, func(t uint8) *ref.Node {
+		return ref.NStruct(t, ref.NIntAs(0, 1, ref.WByte), ref.NIntAs(1, 2, ref.WShort), ref.NIntAs(2, 3, ref.WInt), ref.NIntAs(3, 4, ref.WLong),
+			ref.NFloat(4, 0x3f800000), ref.NDouble(5, 0x3ff0000000000000), ref.NStrAs(6, []byte("a"), ref.WString1), ref.NStrAs(7, []byte("b"), ref.WString4),
+			ref.NMap(8, ref.NInt(0, 1), ref.NInt(1, 1)), ref.NList(9, ref.NInt(0, 1)), ref.NStruct(10), ref.NZero(12), ref.NBytes(13, []byte{1}))
+	})
+	return out
+}
+
+// encoded shapes per tag
+type encShape struct {
+	sh *shape
+	b  []byte
+}
+
+type shapeCache struct {
+	sh    []shape
+	byTag map[uint8][]encShape
+}
+
+func (c *shapeCache) at(tag uint8) []encShape {
+	if e, ok := c.byTag[tag]; ok {
+		return e
+	}
+	e := make([]encShape, len(c.sh))
+	for i := range c.sh {
+		e[i] = encShape{&c.sh[i], c.sh[i].mk(tag).Bytes()}
+	}
+	c.byTag[tag] = e
+	return e
+}
+
+// ---------------------------------------------------------------- sites
+
+// site: one struct body inside an encoding (the top-level body, or the body of
+// a nested struct member / first struct element of a container member).
+type site struct {
+	def    *ref.StructDef
+	kids   []*ref.Node
+	begin  int // offset of the first byte of the body
+	end    int // offset just after the last member (where StructEnd stands, or len(E))
+	path   string
+	nested bool
+}
+
+func sitesOf(def *ref.StructDef, bl *baseline) []site {
+	out := []site{{def: def, kids: bl.fields, begin: 0, end: len(bl.b), path: ""}}
+	addStruct := func(t *ref.Type, n *ref.Node, path string) {
+		if t.Kind == ref.KStruct && n.Type == ref.WStructBegin {
+			out = append(out, site{def: t.Struct, kids: n.Kids, begin: n.HeadEnd, end: n.End - 1, path: path, nested: true})
+		}
+	}
+	for _, f := range bl.fields {
+		_, m := def.MemberByTag(f.Tag)
+		if m == nil || !m.Type.Admissible(f.Type) {
+			continue
+		}
+		switch m.Type.Kind {
+		case ref.KStruct:
+			addStruct(m.Type, f, "."+m.Name)
+		case ref.KVector, ref.KArray:
+			if f.Type == ref.WList && len(f.Kids) > 0 {
+				addStruct(m.Type.Elem, f.Kids[0], "."+m.Name+"[0]")
+				if len(f.Kids) > 1 {
+					addStruct(m.Type.Elem, f.Kids[len(f.Kids)-1], "."+m.Name+"[last]")
+				}
+			}
+		case ref.KMap:
+			if len(f.Kids) >= 2 {
+				addStruct(m.Type.Val, f.Kids[1], "."+m.Name+"{val0}")
+			}
+		}
+	}
+	return out
+}
+
+// gap g of a site lies before kids[g] (g == len(kids): after the last member).
+func (s *site) gap(g int) (pos, lo, hi int) {
+	lo, hi = -1, 256
+	if g > 0 {
+		lo = int(s.kids[g-1].Tag)
+	}
+	if g < len(s.kids) {
+		hi = int(s.kids[g].Tag)
+		pos = s.kids[g].Start
+	} else {
+		pos = s.end
+	}
+	return
+}
+
+// freeTags: candidate tags strictly between lo and hi that are not members of
+// the schema: the ends of the gap, the neighbours of every schema tag inside
+// it and the one-byte/two-byte head boundary.
+func freeTags(def *ref.StructDef, lo, hi int) []uint8 {
+	in := map[int]bool{}
+	for _, m := range def.Members {
+		in[int(m.Tag)] = true
+	}
+	cand := []int{lo + 1, hi - 1, 14, 15, 16}
+	for _, m := range def.Members {
+		cand = append(cand, int(m.Tag)-1, int(m.Tag)+1)
+	}
+	sort.Ints(cand)
+	var out []uint8
+	last := -1
+	for _, t := range cand {
+		if t > lo && t < hi && t >= 0 && t <= 255 && !in[t] && t != last {
+			out = append(out, uint8(t))
+			last = t
+		}
+	}
+	return out
+}
+
+// ---------------------------------------------------------------- the oracle
+
+func sentinel() []byte { return ref.NStr(sentinelTag, []byte(sentinelStr)).Bytes() }
+
+func frame(body []byte) (framed []byte, blockLen int) {
+	b := ref.AppendHead(make([]byte, 0, len(body)+12), blockTag, ref.WStructBegin)
+	b = append(b, body...)
+	b = ref.AppendHead(b, 0, ref.WStructEnd)
+	blockLen = len(b)
+	return append(b, sentinel()...), blockLen
+}
+
+type outcome struct {
+	kind   string // "", panic, error, accepted, value, consumption, sentinel
+	detail string
+}
+
+// decodeBoth runs ReadFrom on the bare body and ReadBlock on the framed body
+// (followed by a sentinel field) and compares with the expectation: want ==
+// nil means decoding must fail.  g0, if set, is the Go value decoded from the
+// unmutated baseline (fast equality path).
+func (c *c04) decodeBoth(s *Subject, in []byte, want *ref.Value, g0 TarsStruct, st *stats, alt ...*ref.Value) (from, block outcome) {
+	check := func(g TarsStruct, err error, pan, op string) outcome {
+		switch {
+		case pan != "":
+			return outcome{"panic", op + " panicked: " + pan}
+		case err != nil && want != nil:
+			return outcome{"error", op + " fails: " + err.Error()}
+		case err == nil && want == nil:
+			v2, _ := ref.FromGo(s.Type, goVal(g))
+			return outcome{"accepted", op + " succeeds with " + ref.Format(s.Type, v2)}
+		case err != nil:
+			return outcome{}
+		}
+		if g0 != nil && reflect.DeepEqual(g0, g) {
+			return outcome{}
+		}
+		v2, e := ref.FromGo(s.Type, goVal(g))
+		if e != nil {
+			st.infraf("%s: FromGo: %v", s.Name, e)
+			return outcome{}
+		}
+		if d := vdiff(s.Type, want, v2, "", false); d != "" {
+			for _, a := range alt {
+				if a != nil && veq(s.Type, a, v2, false) {
+					st.n["accepted_alternative_default"]++
+					return outcome{}
+				}
+			}
+			return outcome{"value", op + " gives another value: " + d}
+		}
+		return outcome{}
+	}
+	g := s.New()
+	err, pan := guard(func() error { return g.ReadFrom(codec.NewReader(in)) })
+	st.n["impl_calls"]++
+	from = check(g, err, pan, "ReadFrom")
+
+	fr, blen := frame(in)
+	g = s.New()
+	r := codec.NewReader(fr)
+	err, pan = guard(func() error { return g.ReadBlock(r, blockTag, true) })
+	st.n["impl_calls"]++
+	block = check(g, err, pan, "ReadBlock")
+	if block.kind == "" && err == nil && pan == "" {
+		if p := readerPos(r, len(fr)); p >= 0 && p != blen {
+			block = outcome{"consumption", fmt.Sprintf("ReadBlock stops at offset %d, the struct ends at %d", p, blen)}
+		} else {
+			var sv string
+			serr, span := guard(func() error { return r.ReadString(&sv, sentinelTag, true) })
+			if span != "" || serr != nil || sv != sentinelStr {
+				block = outcome{"sentinel", fmt.Sprintf("the field following the struct is not read back: %q err=%v panic=%q", sv, serr, span)}
+			}
+		}
+	}
+	return
+}
+
+func (c *c04) mkCase(s *Subject, kind, mode, mutation string, base, in, first []byte, detail string) (string, Case) {
+	cs := Case{Thorough: c.thorough, Check: "C04", Subject: s.Name, Kind: kind, Mode: mode, Base: hex.EncodeToString(base),
+		Input: hex.EncodeToString(in), Mutation: mutation, Detail: detail, IDL: idlOf(s.Def)}
+	if first != nil {
+		cs.First = hex.EncodeToString(first)
+	}
+	return fmt.Sprintf("%s [%s] %s %s: %s (baseline %s, input %s)", s.Name, idlOf(s.Def), kind, mutation, detail, hexClip(base), hexClip(in)), cs
+}
+
+// baselineOK: the unmutated baseline must decode to its value (otherwise the
+// mutations of this baseline say nothing).
+func (c *c04) baselineOK(s *Subject, bl *baseline, st *stats) (TarsStruct, bool) {
+	from, block := c.decodeBoth(s, bl.b, bl.v, nil, st)
+	st.n["cases_baseline"]++
+	ok := true
+	for i, o := range []outcome{from, block} {
+		if o.kind != "" {
+			ok = false
+			mode := []string{"ReadFrom", "ReadBlock"}[i]
+			st.report("baseline:"+o.kind+":"+subjClass(s), len(bl.b), func() (string, Case) {
+				return c.mkCase(s, "baseline", mode, bl.label, bl.b, bl.b, nil, o.detail)
+			})
+		}
+	}
+	if !ok {
+		return nil, false
+	}
+	g0 := s.New()
+	if err, pan := guard(func() error { return g0.ReadFrom(codec.NewReader(bl.b)) }); err != nil || pan != "" {
+		return nil, false
+	}
+	return g0, true
+}
+
+type insertion struct {
+	pos    int
+	tag    uint8
+	es     encShape
+	nested bool
+	path   string
+}
+
+func (i *insertion) describe() string {
+	return fmt.Sprintf("%s tag %d at offset %d (body%s)", i.es.sh.name, i.tag, i.pos, i.path)
+}
+
+// sig: one signature per skipped wire type (and head width); the outcome
+// (error, other value, wrong consumption) is part of the explanation only.
+func (i *insertion) sig(kind string) string {
+	s := "insert:" + i.es.sh.wire.String()
+	if kind == "panic" {
+		s = "insert-panic:" + i.es.sh.wire.String()
+	}
+	if i.tag >= 15 {
+		s += ":exttag"
+	}
+	return s
+}
+
+func spliceIn(b []byte, pos int, ins ...[]byte) []byte {
+	n := len(b)
+	for _, x := range ins {
+		n += len(x)
+	}
+	out := make([]byte, 0, n)
+	out = append(out, b[:pos]...)
+	for _, x := range ins {
+		out = append(out, x...)
+	}
+	return append(out, b[pos:]...)
+}
+
+// insertionsOf lists every single insertion into a baseline and the subset
+// used for pairs: the lowest free tag of each gap (plus the lowest free tag
+// >= 15 where the gap reaches the two-byte heads) x the pair alphabet (quick:
+// one shape per wire type; thorough: the whole alphabet).
+func (c *c04) insertionsOf(s *Subject, bl *baseline, sc *shapeCache) (all, reduced []insertion) {
+	for _, si := range sitesOf(s.Def, bl) {
+		for g := 0; g <= len(si.kids); g++ {
+			pos, lo, hi := si.gap(g)
+			tags := freeTags(si.def, lo, hi)
+			for ti, tag := range tags {
+				pairTag := ti == 0 || (tag >= 15 && tags[ti-1] < 15)
+				for _, es := range sc.at(tag) {
+					ins := insertion{pos: pos, tag: tag, es: es, nested: si.nested, path: si.path}
+					all = append(all, ins)
+					if pairTag && (c.thorough || es.sh.pair) {
+						reduced = append(reduced, ins)
+					}
+				}
+			}
+		}
+	}
+	return
+}
+
+// pairChunk is the number of first insertions one unit of pair work covers.
+const pairChunk = 64
+
+func (c *c04) runInsert(s *Subject, bl *baseline, g0 TarsStruct, sc *shapeCache, chunk int, st *stats) {
+	all, reduced := c.insertionsOf(s, bl, sc)
+	if chunk == 0 {
+		for _, ins := range all {
+			c.judgeInsert(s, bl, g0, []insertion{ins}, st)
+			st.n["cases_insert1"]++
+		}
+	}
+	// all pairs of the reduced insertions that keep every body ascending
+	for i := chunk * pairChunk; i < (chunk+1)*pairChunk && i < len(reduced); i++ {
+		for j := i + 1; j < len(reduced); j++ {
+			a, b := reduced[i], reduced[j]
+			if a.pos == b.pos && (a.path != b.path || a.tag == b.tag) {
+				continue
+			}
+			if a.pos > b.pos || (a.pos == b.pos && a.tag > b.tag) {
+				a, b = b, a
+			}
+			c.judgeInsert(s, bl, g0, []insertion{a, b}, st)
+			st.n["cases_insert2"]++
+		}
+	}
+}
+
+// judgeInsert: ins are ordered by position (ties by tag).
+func (c *c04) judgeInsert(s *Subject, bl *baseline, g0 TarsStruct, ins []insertion, st *stats) {
+	var in []byte
+	if len(ins) == 1 {
+		in = spliceIn(bl.b, ins[0].pos, ins[0].es.b)
+	} else if ins[0].pos == ins[1].pos {
+		in = spliceIn(bl.b, ins[0].pos, ins[0].es.b, ins[1].es.b)
+	} else {
+		in = spliceIn(spliceIn(bl.b, ins[1].pos, ins[1].es.b), ins[0].pos, ins[0].es.b)
+	}
+	from, block := c.decodeBoth(s, in, bl.v, g0, st)
+	for i, o := range []outcome{from, block} {
+		if o.kind == "" {
+			continue
+		}
+		mode := []string{"ReadFrom", "ReadBlock"}[i]
+		// attribute to the inserted field (pairs: the later one decides only if the first is a plain scalar; keep the first)
+		blame := ins[0]
+		var parts []string
+		for _, x := range ins {
+			parts = append(parts, x.describe())
+		}
+		sig := blame.sig(o.kind)
+		if len(ins) > 1 {
+			sig = "insert2:" + ins[0].es.sh.wire.String() + "+" + ins[1].es.sh.wire.String()
+		}
+		st.report(sig, len(in)+1000*(len(ins)-1), func() (string, Case) {
+			return c.mkCase(s, "insert", mode, strings.Join(parts, " and "), bl.b, in, nil, o.detail)
+		})
+	}
+}
+
+func (c *c04) runDelete(s *Subject, bl *baseline, st *stats) {
+	for _, si := range sitesOf(s.Def, bl) {
+		for _, k := range si.kids {
+			_, m := si.def.MemberByTag(k.Tag)
+			if m == nil {
+				continue
+			}
+			in := append(append(make([]byte, 0, len(bl.b)), bl.b[:k.Start]...), bl.b[k.End:]...)
+			want, rerr := ref.Decode(s.Def, in)
+			if rerr != nil && ref.CodeOf(rerr) != ref.ErrMissing {
+				st.infraf("%s: reference decoder on a deletion: %v", s.Name, rerr)
+				continue
+			}
+			if (rerr != nil) != m.Require {
+				st.infraf("%s: deletion of %s: reference says err=%v, member require=%v", s.Name, m.Name, rerr, m.Require)
+				continue
+			}
+			st.n["cases_delete"]++
+			var alt *ref.Value
+			if want != nil && si.path == "" && m.Type.Kind == ref.KArray {
+				// An absent optional fixed array: the IDL says nothing about the
+				// elements' defaults; elements left at Go's zero value (struct
+				// elements without their member defaults) are accepted as well.
+				i, _ := s.Def.MemberByTag(m.Tag)
+				alt = want.Clone()
+				alt.Elems[i] = goZero(m.Type)
+			}
+			c.judgeDelete(s, bl.b, in, want, alt, fmt.Sprintf("member %s%s.%s (tag %d, %s) removed", s.Def.Name, si.path, m.Name, m.Tag, optReq(m)), m, st)
+		}
+	}
+}
+
+// goZero is the value a Go variable of the generated type has before anything
+// is assigned (struct members at zero, not at their IDL defaults).
+func goZero(t *ref.Type) *ref.Value {
+	switch t.Kind {
+	case ref.KStruct:
+		v := &ref.Value{Kind: ref.KStruct}
+		for _, m := range t.Struct.Members {
+			v.Elems = append(v.Elems, goZero(m.Type))
+		}
+		return v
+	case ref.KArray:
+		v := &ref.Value{Kind: ref.KArray}
+		if t.IsBytes() {
+			v.Bytes = make([]byte, t.N)
+			return v
+		}
+		for i := 0; i < t.N; i++ {
+			v.Elems = append(v.Elems, goZero(t.Elem))
+		}
+		return v
+	}
+	return &ref.Value{Kind: t.Kind}
+}
+
+func (c *c04) judgeDelete(s *Subject, base, in []byte, want, alt *ref.Value, mutation string, m *ref.Member, st *stats) {
+	from, block := c.decodeBoth(s, in, want, nil, st, alt)
+	for i, o := range []outcome{from, block} {
+		if o.kind == "" {
+			continue
+		}
+		mode := []string{"ReadFrom", "ReadBlock"}[i]
+		sig := "delete-optional:"
+		if want == nil {
+			sig = "delete-required:"
+		}
+		if o.kind == "panic" {
+			sig = "delete-panic:"
+		}
+		if m != nil {
+			sig += memberClass(m.Type)
+			if m.Default != nil {
+				sig += "+default"
+			}
+		}
+		st.report(sig, len(in), func() (string, Case) {
+			return c.mkCase(s, "delete", mode, mutation, base, in, nil, o.detail)
+		})
+	}
+}
+
+// staleMembers compares, for every member that is optional and absent in B
+// (recursively through struct members present in B), the value after
+// decoding A then B with the value after decoding B into a fresh struct.
+func staleMembers(def *ref.StructDef, fieldsB []*ref.Node, reused, fresh *ref.Value, path string, out func(m *ref.Member, path, d string)) {
+	byTag := map[uint8]*ref.Node{}
+	for _, f := range fieldsB {
+		byTag[f.Tag] = f
+	}
+	for i, m := range def.Members {
+		f := byTag[m.Tag]
+		switch {
+		case f == nil && !m.Require:
+			if d := vdiff(m.Type, fresh.Elems[i], reused.Elems[i], "", false); d != "" {
+				out(m, path+"."+m.Name, d)
+			}
+		case f != nil && m.Type.Kind == ref.KStruct && f.Type == ref.WStructBegin:
+			staleMembers(m.Type.Struct, f.Kids, reused.Elems[i], fresh.Elems[i], path+"."+m.Name, out)
+		}
+	}
+}
+
+// staleClass groups the member kinds by the reset they lack: scalars (bool,
+// integers, floats, strings, enums), containers (vectors, byte vectors, maps),
+// fixed arrays and nested structs; "+default" marks a member with a declared
+// default (whose reset exists and failed).
+func staleClass(m *ref.Member) string {
+	c := "scalar"
+	switch m.Type.Kind {
+	case ref.KVector, ref.KMap:
+		c = "container"
+	case ref.KArray:
+		c = "array"
+	case ref.KStruct:
+		c = "struct"
+	}
+	if m.Default != nil {
+		c += "+default"
+	}
+	return c
+}
+
+func (c *c04) judgeReuse(s *Subject, a, b []byte, fieldsB []*ref.Node, st *stats) {
+	type dec func(g TarsStruct, in []byte) (error, string)
+	modes := []struct {
+		name string
+		d    dec
+	}{
+		{"ReadFrom", func(g TarsStruct, in []byte) (error, string) {
+			return guard(func() error { return g.ReadFrom(codec.NewReader(in)) })
+		}},
+		{"ReadBlock", func(g TarsStruct, in []byte) (error, string) {
+			fr, _ := frame(in)
+			return guard(func() error { return g.ReadBlock(codec.NewReader(fr), blockTag, true) })
+		}},
+	}
+	for _, md := range modes {
+		st.n["cases_reuse"]++
+		fresh := s.New()
+		if err, pan := md.d(fresh, b); err != nil || pan != "" {
+			continue // baseline sanity reports it
+		}
+		g := s.New()
+		if err, pan := md.d(g, a); err != nil || pan != "" {
+			continue
+		}
+		err, pan := md.d(g, b)
+		st.n["impl_calls"] += 3
+		mode := md.name
+		if err != nil || pan != "" {
+			st.report("reuse:error:"+subjClass(s), len(a)+len(b), func() (string, Case) {
+				return c.mkCase(s, "reuse", mode, "decode A then B into the same struct", b, b, a, fmt.Sprintf("second decode fails: err=%v panic=%q", err, pan))
+			})
+			continue
+		}
+		if reflect.DeepEqual(fresh, g) {
+			continue
+		}
+		vf, e1 := ref.FromGo(s.Type, goVal(fresh))
+		vr, e2 := ref.FromGo(s.Type, goVal(g))
+		if e1 != nil || e2 != nil {
+			st.infraf("%s: FromGo: %v %v", s.Name, e1, e2)
+			continue
+		}
+		staleMembers(s.Def, fieldsB, vr, vf, "", func(m *ref.Member, path, d string) {
+			sig := "reuse-stale:" + staleClass(m)
+			st.report(sig, len(a)+len(b)+8*len(s.Def.Members), func() (string, Case) {
+				return c.mkCase(s, "reuse", mode, "decode A then B into the same struct", b, b, a,
+					fmt.Sprintf("optional member %s is absent in B; fresh decode of B gives %s, after decoding A first: %s", path, ref.Format(s.Type, vf), d))
+			})
+		})
+	}
+}
+
+// ---------------------------------------------------------------- enumeration
+
+type c04unit struct {
+	s     *Subject
+	part  string // insert | delete | reuse
+	base  int
+	chunk int // insert: chunk 0 runs the single insertions; every chunk a slice of the pairs
+}
+
+func (c *c04) runUnit(u c04unit, sc *shapeCache, st *stats) {
+	s := u.s
+	bls := baselinesOf(s, st)
+	if u.base >= len(bls) {
+		return
+	}
+	bl := bls[u.base]
+	switch u.part {
+	case "insert":
+		g0, ok := c.baselineOK(s, bl, st)
+		if !ok {
+			return
+		}
+		if u.chunk > 0 {
+			st.n["cases_baseline"]-- // counted by chunk 0
+		}
+		c.runInsert(s, bl, g0, sc, u.chunk, st)
+	case "delete":
+		c.runDelete(s, bl, st)
+	case "reuse":
+		for _, a := range bls {
+			c.judgeReuse(s, a.b, bl.b, bl.fields, st)
+		}
+	}
+}
+
+func mainC04(reg Registry) {
+	run := common.Start("C04", "model_checking")
+	c := &c04{thorough: run.Thorough()}
+	subjects, corpus, mismatches, err := LoadSubjects(os.Getenv(envTarsDir), reg)
+	if err != nil {
+		run.InfraError("%v", err)
+		run.Finish(nil, nil)
+	}
+	if run.Replay != "" {
+		c.replay(run, subjects)
+		return
+	}
+	start := time.Now()
+	deadline := start.Add(150 * time.Second)
+	if c.thorough {
+		deadline = start.Add(10 * time.Minute)
+	}
+	for k, v := range mismatches {
+		run.Note("%s skipped: generated Go type does not fit the schema (C03 reports it): %s", k, v)
+	}
+	pre := newStats()
+	alpha := alphabet()
+	var units []c04unit
+	nb := 0
+	psc := &shapeCache{sh: alpha, byTag: map[uint8][]encShape{}}
+	for _, s := range subjects {
+		bls := baselinesOf(s, pre)
+		nb += len(bls)
+		for b, bl := range bls {
+			_, reduced := c.insertionsOf(s, bl, psc)
+			for ch := 0; ch == 0 || ch*pairChunk < len(reduced); ch++ {
+				units = append(units, c04unit{s, "insert", b, ch})
+			}
+			units = append(units, c04unit{s, "delete", b, 0}, c04unit{s, "reuse", b, 0})
+		}
+	}
+	res, skipped := runUnits(len(units), run.Seed, deadline, func(i int, st *stats) {
+		c.runUnit(units[i], &shapeCache{sh: alpha, byTag: map[uint8][]encShape{}}, st)
+	})
+	total := newStats()
+	total.infra = pre.infra
+	perPart := map[string]uint64{}
+	for i, r := range res {
+		total.merge(r)
+		perPart[units[i].s.Origin] += r.n["cases_insert1"] + r.n["cases_insert2"] + r.n["cases_delete"] + r.n["cases_reuse"]
+	}
+	stopProfile()
+	bySig := flush(run, total)
+	exhaustive := skipped == 0
+	if !exhaustive {
+		run.Note("internal deadline reached: %d of %d units not run", skipped, len(units))
+	}
+	nc := total.n
+	cases := nc["cases_insert1"] + nc["cases_insert2"] + nc["cases_delete"] + nc["cases_reuse"] + nc["cases_baseline"]
+	famStructs := map[string]int{}
+	for _, s := range subjects {
+		famStructs[s.Family]++
+	}
+	var names []string
+	for _, sh := range alpha {
+		names = append(names, sh.name)
+	}
+	var samples []string
+	for _, s := range subjects {
+		if s.Name == "requestf::ResponsePacket" {
+			bl := baselinesOf(s, pre)
+			if len(bl) > 1 {
+				b := bl[len(bl)-1]
+				samples = append(samples, fmt.Sprintf("%s baseline %s = %s", s.Name, b.label, hexClip(b.b)),
+					fmt.Sprintf("%s with %s tag 200 inserted at the end: %s", s.Name, alpha[len(alpha)-2].name, hexClip(spliceIn(b.b, len(b.b), alpha[len(alpha)-2].mk(200).Bytes()))))
+			}
+		}
+	}
+	sigs := make([]string, 0, len(total.viols))
+	for sig := range total.viols {
+		sigs = append(sigs, sig)
+	}
+	sort.Strings(sigs)
+	for _, sig := range sigs {
+		if len(samples) < 8 {
+			v := total.viols[sig]
+			samples = append(samples, fmt.Sprintf("%s: %s %s input %s", sig, v.c.Subject, v.c.Mutation, v.c.Input))
+		}
+	}
+	excluded := 0
+	if corpus != nil {
+		excluded = len(corpus.Excluded)
+	}
+	cov := map[string]any{
+		"states":                        cases,
+		"transitions":                   nc["impl_calls"],
+		"traces_validated_against_impl": cases,
+		"evaluations":                   2 * cases,
+		"distinct_nontrivial":           nc["cases_insert1"] + nc["cases_insert2"] + nc["cases_delete"],
+		"programs":                      len(subjects),
+		"structs_by_family":             famStructs,
+		"baseline_encodings":            nb,
+		"cases_insert_single":           nc["cases_insert1"],
+		"cases_insert_pair":             nc["cases_insert2"],
+		"cases_delete":                  nc["cases_delete"],
+		"cases_reuse":                   nc["cases_reuse"],
+		"cases_baseline":                nc["cases_baseline"],
+		"cases_by_origin":               perPart,
+		"implementation_calls":          nc["impl_calls"],
+		"units":                         len(units),
+		"field_alphabet":                names,
+		"violating_cases_by_signature":  bySig,
+		"corpus_declarations_excluded":  excluded,
+		"bootstrap":                     bootFacts(),
+		"enumeration_s":                 time.Since(start).Seconds(),
+		"samples":                       samples,
+		"exhaustive":                    exhaustive,
+		"bounds": map[string]any{
+			"baseline_values":    "all-default, all-non-default and (two or more members) the two alternating mixes",
+			"baseline_encodings": "reference canonical, reference with explicit defaults, the implementation's own WriteTo; deduplicated by bytes",
+			"insert":             fmt.Sprintf("%d well-formed field shapes (13 wire types; nesting up to 4; lengths 0,1,2,255,256; STRING4; doubles; extended tags inside skipped structs; payload bytes that look like StructEnd; non-narrowest length fields) x every gap between the members present (top-level body, nested struct members, first/last struct element of vectors, first struct value of maps) x free tags {gap ends, neighbours of every schema tag in the gap, 14, 15, 16}", len(alpha)),
+			"insert_pairs":       "all order-compatible pairs of insertions at the lowest free tag of each gap (and the lowest free tag >= 15 where the gap reaches it): quick over 13 shapes (one per wire type), thorough over the whole alphabet",
+			"delete":             "every member present, one at a time, at the top level and inside the nested sites",
+			"reuse":              "all ordered pairs (A,B) of baseline encodings of the struct, A == B included",
+			"decoders":           fmt.Sprintf("ReadFrom on the bare body; ReadBlock(tag %d, require) on StructBegin+body+StructEnd followed by a sentinel string field at tag %d, with the reader position compared to the end of the struct", blockTag, sentinelTag),
+		},
+		"rule": "cases = (struct, baseline encoding, mutation); every case is decoded by ReadFrom and by ReadBlock; insert: the decoded value and success must equal those of the baseline (= the reference value) and ReadBlock must stop exactly at the end of the struct and read the sentinel; delete: result must equal the strict reference decoder's (default for an optional member, error for a required one); reuse: members optional and absent in B are compared between decode(A);decode(B) into one value and decode(B) into a fresh one, recursively through struct members present in B; " +
+			"non-trivial = insert and delete cases (the input differs from every encoding the writer of this schema produces); per signature the smallest case is kept; units = (struct, baseline, part), merged in a fixed order",
+	}
+	run.Finish(cov, []string{
+		"the reference codec, the .tars reader (verif/ref) and the corpus metadata (verif/gen) are independent of codec.go and tars2go",
+		"the reader position is read from codec.Reader's unexported *bytes.Reader through reflection (there is no accessor); the sentinel field is checked as well",
+		"ReadFrom does not consume unknown fields behind the last member it knows (nothing follows a bare body); exact consumption is judged on ReadBlock",
+		"an inserted field is well-formed by the reference grammar (Appendix B): length fields may be any integer width",
+		"old reader <- new writer is the insertion of the new member's field; new reader <- old writer is the deletion of an optional member's field",
+		"reuse judges only members that are optional and absent in B; members present in B are C03's business",
+		"hostile lengths and malformed fields are C05/C06's business",
+	})
+}
+
+func (c *c04) replay(run *common.Run, subjects []*Subject) {
+	var cs Case
+	if err := common.LoadReplay(run.Replay, &cs); err != nil {
+		run.InfraError("replay file: %v", err)
+		run.Finish(nil, nil)
+	}
+	var s *Subject
+	for _, x := range subjects {
+		if x.Name == cs.Subject {
+			s = x
+		}
+	}
+	if s == nil {
+		run.InfraError("replay: unknown struct %q", cs.Subject)
+		run.Finish(nil, nil)
+	}
+	base, e1 := hex.DecodeString(cs.Base)
+	in, e2 := hex.DecodeString(cs.Input)
+	first, e3 := hex.DecodeString(cs.First)
+	if e1 != nil || e2 != nil || e3 != nil {
+		run.InfraError("replay: bad hex")
+		run.Finish(nil, nil)
+	}
+	st := newStats()
+	fmt.Printf("replaying %s %s on %s\n  %s\n  baseline %s\n  input    %s\n", cs.Kind, cs.Mutation, s.Name, idlOf(s.Def), hexClip(base), hexClip(in))
+	show := func(from, block outcome) {
+		fmt.Printf("  ReadFrom: %s %s\n  ReadBlock: %s %s\n", orOK(from.kind), from.detail, orOK(block.kind), block.detail)
+	}
+	switch cs.Kind {
+	case "baseline", "insert":
+		want, err := ref.Decode(s.Def, base)
+		if err != nil {
+			run.InfraError("replay: baseline does not decode under the schema: %v", err)
+			run.Finish(nil, nil)
+		}
+		from, block := c.decodeBoth(s, in, want, nil, st)
+		show(from, block)
+		for i, o := range []outcome{from, block} {
+			if o.kind != "" {
+				mode := []string{"ReadFrom", "ReadBlock"}[i]
+				st.report(cs.Sig, len(in), func() (string, Case) { return c.mkCase(s, cs.Kind, mode, cs.Mutation, base, in, nil, o.detail) })
+			}
+		}
+	case "delete":
+		want, rerr := ref.Decode(s.Def, in)
+		fmt.Printf("  reference decoder: value=%s err=%v\n", ref.Format(s.Type, want), rerr)
+		from, block := c.decodeBoth(s, in, want, nil, st)
+		show(from, block)
+		for i, o := range []outcome{from, block} {
+			if o.kind != "" {
+				mode := []string{"ReadFrom", "ReadBlock"}[i]
+				st.report(cs.Sig, len(in), func() (string, Case) { return c.mkCase(s, cs.Kind, mode, cs.Mutation, base, in, nil, o.detail) })
+			}
+		}
+	case "reuse":
+		fields, err := ref.Parse(in)
+		if err != nil {
+			run.InfraError("replay: %v", err)
+			run.Finish(nil, nil)
+		}
+		fmt.Printf("  first    %s\n", hexClip(first))
+		c.judgeReuse(s, first, in, fields, st)
+		for sig, v := range st.viols {
+			fmt.Printf("  %s: %s\n", sig, v.c.Detail)
+		}
+	default:
+		run.InfraError("replay: unknown kind %q", cs.Kind)
+	}
+	flush(run, st)
+	run.Finish(map[string]any{"states": 1, "transitions": st.n["impl_calls"], "traces_validated_against_impl": 1, "samples": []string{cs.Input}}, nil)
+}
+
+func orOK(s string) string {
+	if s == "" {
+		return "ok"
+	}
+	return s
+}
